@@ -973,6 +973,41 @@ func TestDriverPubsub(t *testing.T) {
 		}
 	}
 
+	// log filters (logs_test.go): FilterLogs on the product criteria x log, and the real consumers end to end in a child
+	{
+		before := len(side.OracleHits)
+		pairs := logFilterProduct(side)
+		ok := len(side.OracleHits) == before
+		cases.Add(fmt.Sprintf("(PLogFilter %s)", CqBool(ok)))
+		side.Case(idx, "log-filter-product", true, map[string]interface{}{"pairs": pairs, "no_panic": ok})
+		idx++
+		exe, err := os.Executable()
+		require.NoError(t, err)
+		cmd := exec.Command(exe, "-test.run", "^TestChildLogFilters$", "-test.count", "1", "-test.timeout", "3000s")
+		cmd.Env = append(os.Environ(), "VERIF_PUBSUB_CHILD=logfilters")
+		var buf bytes.Buffer
+		cmd.Stdout, cmd.Stderr = &buf, &buf
+		runErr := cmd.Run()
+		out := buf.String()
+		survived := runErr == nil && strings.Contains(out, "LOGFILTERS survived")
+		switch {
+		case survived:
+			cases.Add("(PLogFilter true)")
+			side.Case(idx, "log-filter-delivery", true, map[string]interface{}{"survived": true})
+			idx++
+			side.Count("log_filter_delivery:survived")
+		case diedByPanic(runErr, out) || strings.Contains(out, "ws_alive=false"):
+			_, ex := wsCrashSignature("C20/pubsub/log-filters", out)
+			side.Hit("C20/pubsub/log-filters/delivery-killed-the-process", "delivering EVM Tx events with logs of 0..4 topics to log filters of every criteria shape (eth_newFilter consumers, websocket logs subscriptions) killed the process",
+				map[string]interface{}{"stderr": ex})
+			cases.Add("(PLogFilter false)")
+			side.Case(idx, "log-filter-delivery", true, map[string]interface{}{"survived": false})
+			idx++
+		default:
+			side.Count("skipped:log-filter-child-ended-without-verdict")
+		}
+	}
+
 	// the same events delivered to a newPendingTransactions subscription of the real websocket server (ws_test.go)
 	for _, k := range []struct {
 		name            string
